@@ -31,6 +31,15 @@ def scenario(rng, i):
             steps.append(e)
             cur = world.tree_apply(cur, e)
     steps.append({"op": "info"})
+    if i % 6 == 1:
+        # the history is continued under other time zones (the creation dates then carry different UTC offsets): generations
+        # are ordered by their NUMBER
+        zones = ["JST-9", "UTC0", "<-12>12", "<+14>-14", "EST5EDT"]
+        k = 0
+        for j in range(len(steps) - 1, -1, -1):
+            if steps[j]["op"] == "create":
+                steps.insert(j, {"op": "tz", "tz": zones[k % len(zones)]})
+                k += 1
     scn = {"tree": tree, "steps": steps}
     if i % 4 == 2:
         scn["tz"] = rng.choice(["JST-9", "EST5EDT", "IST-5:30", "NST3:30"])       # the stamp in the file name is UTC wherever the tool runs
